@@ -50,11 +50,28 @@ def run(chk, program, tier):
         chk.unknown('ID-PARSE', 'header functions', f"bit provenance gave up: {t}", DEC, 0)
     except AnalysisError as e:
         chk.unknown('ID-PARSE', 'header functions', str(e), DEC, 0)
-    for part in (actisense, id_bytes, id_use):
-        try:
-            part(chk, program)
-        except (B.Top, B.NeedBranch, AnalysisError) as t:
-            chk.unknown('ID-ACT', part.__name__, str(t), DEC, 0)
+    # the Actisense header word: decided by composing writer and reader over symbolic source / destination / priority (C06's WF-ACT composition);
+    # the structural reading (which bits of `n`) confirms where it recognises the spelling
+    from . import c06
+    from .. import rules_reasm as RR
+    c06.actisense_composition(chk, program, (1, 8), 'ID-ACT')
+    co = RR._ConfirmOnly(chk, {'ID-ACT'})
+    try:
+        actisense(co, program)
+    except (B.Top, B.NeedBranch, AnalysisError) as t:
+        co.unrecognised.append(f"actisense: {t}")
+    chk.unit('actisense_shapes_not_recognised', co.unrecognised)
+    id_bytes_composition(chk, program)
+    co2 = RR._ConfirmOnly(chk, {'ID-BYTES'})
+    try:
+        id_bytes(co2, program)
+    except Exception as t:
+        co2.unrecognised.append(f"id_bytes: {t}")
+    chk.unit('id_bytes_shapes_not_recognised', co2.unrecognised)
+    try:
+        id_use(chk, program)
+    except (B.Top, B.NeedBranch, AnalysisError) as t:
+        chk.unknown('ID-USE', 'id_use', str(t), DEC, 0)
 
 def id_pure(chk, program):
     """_build_header / _extract_header are functions of their arguments: they read no instance, class or module state (a cache keyed by part of the
@@ -66,7 +83,10 @@ def id_pure(chk, program):
         params = {a.arg for a in fn.args.args}
         body = ast.Module(body=fn.body, type_ignores=[])       # the body only: annotations are not behaviour
         local = {n.id for n in ast.walk(body) if isinstance(n, ast.Name) and isinstance(n.ctx, ast.Store)}
-        bad = sorted({n.id for n in ast.walk(body) if isinstance(n, ast.Name) and isinstance(n.ctx, ast.Load) and n.id not in params | local and n.id not in consts and not hasattr(builtins, n.id)})
+        from ..wire import is_logger
+        log_nodes = {id(x) for c in ast.walk(body) if isinstance(c, ast.Call) and is_logger(c) for x in ast.walk(c.func)}
+        bad = sorted({n.id for n in ast.walk(body) if isinstance(n, ast.Name) and isinstance(n.ctx, ast.Load) and n.id not in params | local and n.id not in consts and not hasattr(builtins, n.id)
+                      and id(n) not in log_nodes})
         attrs = sorted({ast.unparse(n) for n in ast.walk(body) if isinstance(n, ast.Attribute) and isinstance(n.value, ast.Name) and n.value.id in ('self', 'cls', 'NMEA2000Encoder', 'NMEA2000Decoder')})
         stores = [n for n in ast.walk(body) if isinstance(n, (ast.Subscript, ast.Attribute)) and isinstance(n.ctx, (ast.Store, ast.Del))]
         ok = not bad and not attrs and not stores
@@ -75,112 +95,94 @@ def id_pure(chk, program):
                   detail='' if ok else 'state consulted by the header function (e.g. a cache) can make two different (PGN, source, destination, priority) tuples share one identifier')
 
 def _run(chk, program, tier):
+    """Both header functions are evaluated per value of the PDU-format byte (the 8 bits their PF test consults; whatever
+    bits their predicates consult are enumerated, see bitprov.cases), all other bits symbolic: 256 cases x per-bit
+    provenance = every identifier / every (priority, source, destination, PGN)."""
     pf = program.fn('decoder', 'NMEA2000Decoder._extract_header')
     bf = program.fn('encoder', 'NMEA2000Encoder._build_header')
     pex, pret = _ret_terms(pf, program.module_consts('decoder'))
     bex, bret = _ret_terms(bf, program.module_consts('encoder'))
-    if pret[0] != 'tuple' or len(pret[1]) != 4:
-        raise AnalysisError('_extract_header no longer returns a 4-tuple')
     idp = pex.params[0]
     bparams = bex.params           # pgn_id, source, dest, priority (by position)
     if len(bparams) != 4:
         raise AnalysisError('_build_header no longer takes 4 parameters')
-    # roles by the order documented in the two signatures: parse returns (pgn, source, dest, priority); build takes (pgn, source, dest, priority)
     roles = ['pgn', 'source', 'dest', 'priority']
-    bw = {bparams[0]: 18, bparams[1]: 8, bparams[2]: 8, bparams[3]: 3}
+    P, S, D, R = bparams
+    bw = {P: 18, S: 8, D: 8, R: 3}
+    def tup4(v):
+        if not (isinstance(v, tuple) and v[0] == 'tuple' and len(v[1]) == 4 and all(isinstance(x, list) for x in v[1])):
+            raise AnalysisError('_extract_header no longer returns a 4-tuple (pgn, source, destination, priority)')
+        return [B.trim(x) for x in v[1]]
+    def vec(v):
+        if not isinstance(v, list):
+            raise AnalysisError('_build_header no longer returns an integer')
+        return B.trim(v)
     try:
-        pbr = B.branches(list(pret[1]), {idp: 32})
-        bbr = B.branches([bret], bw)
+        bcases = B.cases(bret, bw, presplit=[(P, i) for i in range(8, 16)])
     except B.Overlap as t:
         chk.violation('ID-BUILD', 'header::fields-overlap', file=ENC, line=bf.lineno, func='_build_header/_extract_header', expected='every identifier bit carries one input bit',
                       found=str(t), detail='two inputs are packed into the same bit position: the identifier cannot be parsed back')
         return
-    except B.Top as t:
-        chk.unknown('ID-PARSE', 'header functions', f"bit provenance gave up: {t}", DEC, pf.lineno)
-        return
-    chk.unit('parse_branches', len(pbr)); chk.unit('build_branches', len(bbr))
-    samples = []
+    pcases = B.cases(pret, {idp: 32}, presplit=[(idp, i) for i in range(16, 24)])
+    chk.unit('parse_cases', len(pcases)); chk.unit('build_cases', len(bcases))
+    def show_case(fixed, name, lo):
+        return f"PF={sum(fixed.get((name, lo + i), 0) << i for i in range(8)):#04x}" + (''.join(f",{n}[{k}]={v}" for (n, k), v in sorted(fixed.items()) if not (n == name and lo <= k < lo + 8)))
     # --- bits 29..31 never consulted
-    for assume, vs in pbr:
-        for role, v in zip(roles, vs):
-            used = [b for b in v if isinstance(b, tuple) and b[1] >= 29]
-            chk.check(not used, 'ID-BUILD', f"parse::{_br(assume)}::{role}::ignores-bits-29..31", file=DEC, line=pf.lineno, func='_extract_header',
-                      expected='no output bit depends on identifier bits 29..31', found=B.show_vec(v))
-        samples.append({'branch': _br(assume), **{r: B.show_vec(v) for r, v in zip(roles, vs)}})
-        for c, val in assume.items():
-            try:
-                pp = B.pred_prov(c, {idp: 32})
-                chk.check(all((not isinstance(b, tuple)) or b[1] < 29 for b in pp[1]), 'ID-BUILD', f"parse::{_br(assume)}::predicate-ignores-bits-29..31",
-                          file=DEC, line=pf.lineno, func='_extract_header', expected='predicate over identifier bits < 29', found=B.show_vec(pp[1]), nontrivial=False)
-            except B.Top as t:
-                chk.unknown('ID-PARSE', 'predicate', str(t), DEC, pf.lineno)
-    chk.unit('parse_tables', samples)
-    chk.unit('build_tables', [{'branch': _br(a), 'id': B.show_vec(v[0])} for a, v in bbr])
+    bad = []
+    for fixed, v in pcases:
+        vs = tup4(v)
+        if any(k >= 29 for (n, k) in fixed):
+            bad.append(f"{show_case(fixed, idp, 16)}: a predicate consults identifier bit >= 29")
+        for role, x in zip(roles, vs):
+            if any(isinstance(b, tuple) and b[1] >= 29 for b in x):
+                bad.append(f"{show_case(fixed, idp, 16)}: {role} = {B.show_vec(x)}")
+    chk.check(not bad, 'ID-BUILD', 'parse::ignores-bits-29..31', file=DEC, line=pf.lineno, func='_extract_header', expected='no output bit and no predicate depends on identifier bits 29..31', found=bad[:3] or 'ok')
+    chk.unit('parse_tables', [{'case': show_case(f, idp, 16), **{r: B.show_vec(x) for r, x in zip(roles, tup4(v))}} for f, v in pcases[:2] + pcases[-2:]])
+    chk.unit('build_tables', [{'case': show_case(f, P, 8), 'id': B.show_vec(vec(v))} for f, v in bcases[:2] + bcases[-2:]])
     # --- parse o build
-    for bass, bvs in bbr:
-        idv = bvs[0]
-        chk.check(len(idv) <= 29, 'ID-BUILD', f"build::{_br(bass)}::29-bits", file=ENC, line=bf.lineno, func='_build_header', expected='identifier fits 29 bits', found=len(idv))
-        bpreds = {c: (B.pred_prov(c, bw), val) for c, val in bass.items()}
-        paired = None
-        for pass_, pvs in pbr:
-            # substitute builder bits into the parser's predicate(s): must equal the builder's predicate with the same truth value
-            okpair = True
-            for c, val in pass_.items():
-                op, vec, k = B.pred_prov(c, {idp: 32})
-                sv = tuple(B.substitute(vec, {idp: idv}))
-                match = [bv for (bop, bvec, bk), bv in bpreds.values() if (bop, tuple(B.trim(bvec)), bk) == (op, sv, k)]
-                if not match or match[0] != val:
-                    okpair = False
-            if okpair:
-                paired = (pass_, pvs)
-        inst = f"parse∘build::{_br(bass)}"
-        if paired is None:
-            chk.violation('ID-PARSE', f"{inst}::branch-pairing", file=DEC, line=pf.lineno, func='_extract_header',
-                          expected='parser predicate, with the builder bits substituted, has the provenance of the builder predicate (PDU1/PDU2 decided alike)',
-                          found={'build': [(_s(p[0])) for p in bpreds.values()], 'parse': [[_s(B.pred_prov(c, {idp: 32})) for c in a] for a, _ in pbr]})
+    n_ob = 0
+    for bfixed, bv in bcases:
+        idv = vec(bv)
+        case = show_case(bfixed, P, 8)
+        chk.check(len(idv) <= 29, 'ID-BUILD', f"build::{case}::29-bits", file=ENC, line=bf.lineno, func='_build_header', expected='identifier fits 29 bits', found=len(idv), nontrivial=False)
+        pfv = sum(bfixed[(P, 8 + i)] << i for i in range(8))
+        pdu1 = pfv < 0xF0
+        inp = lambda name, w: [bfixed.get((name, i), (name, i)) for i in range(w)]
+        exp = {'priority': inp(R, 3), 'source': inp(S, 8), 'pgn': ([0] * 8 + inp(P, 18)[8:]) if pdu1 else inp(P, 18), 'dest': inp(D, 8) if pdu1 else [1] * 8}
+        try:
+            sub = B.cases(pret, {idp: 32}, env={('param', idp): idv + [0] * (32 - len(idv))})
+        except B.Top as t:
+            chk.unknown('ID-PARSE', f"parse∘build::{case}", f"bit provenance gave up: {t}", DEC, pf.lineno)
             continue
-        chk.ok('ID-PARSE', f"{inst}::branch-pairing", file=DEC, line=pf.lineno, func='_extract_header', found=[_s(p[0]) for p in bpreds.values()])
-        pass_, pvs = paired
-        out = {r: B.substitute(v, {idp: idv}) for r, v in zip(roles, pvs)}
-        pdu1 = _is_pdu1(pass_)
-        exp = {
-            'priority': [(bparams[3], i) for i in range(3)],
-            'source': [(bparams[1], i) for i in range(8)],
-            'pgn': ([0] * 8 + [(bparams[0], i) for i in range(8, 18)]) if pdu1 else [(bparams[0], i) for i in range(18)],
-            'dest': [(bparams[2], i) for i in range(8)] if pdu1 else [1] * 8,
-        }
-        for r in roles:
-            e = B.trim(exp[r])
-            for bit in range(max(len(e), len(out[r]))):
-                x = e[bit] if bit < len(e) else 0
-                y = out[r][bit] if bit < len(out[r]) else 0
-                chk.check(x == y, 'ID-PARSE', f"{inst}::{r}[{bit}]", file=DEC, line=pf.lineno, func='_extract_header', expected=str(x), found=str(y),
-                          detail=f"{'PDU1' if pdu1 else 'PDU2'}: {r} = {B.show_vec(e)}")
+        for sfixed, sv in sub:
+            out = dict(zip(roles, tup4(sv)))
+            for r in roles:
+                e = B.trim([sfixed.get(b, b) if isinstance(b, tuple) else b for b in exp[r]])
+                n_ob += 1
+                chk.check(out[r] == e, 'ID-PARSE', f"parse∘build::{case}{''.join(f',{n}[{k}]={v}' for (n, k), v in sorted(sfixed.items()))}::{r}", file=DEC, line=pf.lineno, func='_extract_header',
+                          expected=B.show_vec(e), found=B.show_vec(out[r]), detail=f"{'PDU1' if pdu1 else 'PDU2'} (PF {pfv:#04x}): identifier = {B.show_vec(idv)}")
     # --- build o parse
-    for pass_, pvs in pbr:
-        mapping = {bparams[0]: pvs[0], bparams[1]: pvs[1], bparams[2]: pvs[2], bparams[3]: pvs[3]}
-        paired = None
-        for bass, bvs in bbr:
-            okpair = True
-            for c, val in bass.items():
-                op, vec, k = B.pred_prov(c, bw)
-                sv = tuple(B.substitute(vec, mapping))
-                match = [pv for pc, pv in pass_.items() if (lambda q: (q[0], tuple(B.trim(q[1])), q[2]))(B.pred_prov(pc, {idp: 32})) == (op, sv, k)]
-                if not match or match[0] != val:
-                    okpair = False
-            if okpair:
-                paired = (bass, bvs)
-        inst = f"build∘parse::{_br(pass_)}"
-        if paired is None:
-            chk.violation('ID-BUILD', f"{inst}::branch-pairing", file=ENC, line=bf.lineno, func='_build_header', expected='builder predicate pairs with the parser predicate', found='no pairing')
+    for pfixed, pv in pcases:
+        vs = tup4(pv)
+        case = show_case(pfixed, idp, 16)
+        env = {('param', P): vs[0], ('param', S): vs[1], ('param', D): vs[2], ('param', R): vs[3]}
+        try:
+            sub = B.cases(bret, {}, env=env)
+        except B.Overlap as t:
+            chk.violation('ID-BUILD', f"build∘parse::{case}::fields-overlap", file=ENC, line=bf.lineno, func='_build_header', expected='every identifier bit carries one input bit', found=str(t))
             continue
-        chk.ok('ID-BUILD', f"{inst}::branch-pairing", file=ENC, line=bf.lineno, func='_build_header')
-        rebuilt = B.substitute(paired[1][0], mapping)
-        for bit in range(29):
-            y = rebuilt[bit] if bit < len(rebuilt) else 0
-            chk.check(y == (idp, bit), 'ID-BUILD', f"{inst}::id[{bit}]", file=ENC, line=bf.lineno, func='_build_header', expected=f"{idp}[{bit}]", found=str(y))
-        chk.check(len(rebuilt) <= 29, 'ID-BUILD', f"{inst}::no-bits-above-28", file=ENC, line=bf.lineno, func='_build_header', expected='<= 29 bits', found=len(rebuilt))
-    chk.floor('bit_obligations', len(chk.obs), 150)
+        except B.Top as t:
+            chk.unknown('ID-BUILD', f"build∘parse::{case}", f"bit provenance gave up: {t}", ENC, bf.lineno)
+            continue
+        for sfixed, rv in sub:
+            rebuilt = vec(rv)
+            fx = dict(pfixed); fx.update(sfixed)
+            want = B.trim([fx.get((idp, i), (idp, i)) for i in range(29)])
+            n_ob += 1
+            chk.check(rebuilt == want, 'ID-BUILD', f"build∘parse::{case}{''.join(f',{n}[{k}]={v}' for (n, k), v in sorted(sfixed.items()))}::id[0:29]", file=ENC, line=bf.lineno, func='_build_header',
+                      expected=B.show_vec(want), found=B.show_vec(rebuilt), detail='the identifier rebuilt from the parsed values, bit for bit; nothing above bit 28')
+    chk.unit('bit_vector_obligations', n_ob)
+    chk.floor('bit_vector_obligations', n_ob, 1200)
 
 def _is_pdu1(assume):
     # the branch on which the predicate "PF < 0xF0" holds
@@ -280,6 +282,27 @@ def id_use(chk, program):
         ok = args is not None and len(args) == 4 and all(isinstance(a, Ab.AInt) and a.vec() is not None and B.trim(a.vec()) == [(n, k) for k in range(w)] for a, (n, w) in zip(args, want))
         chk.check(ok, 'ID-USE', f"{meth}::identifier-of-this-message", file=ENC, line=fn.lineno, func=meth,
                   expected='_build_header(message.PGN, message.source, message.destination, message.priority)', found=[repr(a) for a in args] if args else 'no call of _build_header')
+
+def id_bytes_composition(chk, program):
+    """[ID-BYTES] by composition: each frame-level writer is interpreted on an abstract frame whose identifier is id[0:29]; its packet goes
+    through the matching reader; the integer the reader hands to _extract_header must be id[0:29] bit for bit (any byte order, any spelling)"""
+    from .. import wire as Wr, absint as Ab
+    for en, dn in (('encode_ebyte', 'decode_tcp'), ('encode_usb', 'decode_usb'), ('encode_yacht_devices', 'decode_yacht_devices_string')):
+        try:
+            res, rec = Wr.encode_with(program, en, [Wr.frame_bytes(8)])
+            pk = res.items[0]
+            if dn == 'decode_yacht_devices_string':
+                if not isinstance(pk, Ab.AStr):
+                    raise Ab.Unknown('the writer does not return text')
+                body = Ab.AStr([('lit', '12:00:00.000 R ')] + list(pk.pieces))
+                pk = Ab.Interp().call(ast.parse('x.strip()').body[0].value, {'x': body})
+            r = Wr.decode_with(program, dn, pk)
+        except (Ab.Unknown, Ab.RaiseSignal, AttributeError, IndexError) as u:
+            chk.unknown('ID-BYTES', f"{en}/{dn}", f"not interpretable: {u}", DEC, 0)
+            continue
+        chk.check(Wr.int_matches(r.header_arg, Wr.ID_BITS), 'ID-BYTES', f"{en}/{dn}::identifier-through-the-wire", file=DEC, line=program.fn('decoder', f"NMEA2000Decoder.{dn}").lineno, func=dn,
+                  expected='_extract_header receives id[0:29] bit for bit', found=repr(r.header_arg),
+                  detail='writer and reader disagree on the position or the byte order of the 4 identifier bytes' if not Wr.int_matches(r.header_arg, Wr.ID_BITS) else '')
 
 def _byteorder_of(call):
     for k in call.keywords:
